@@ -298,6 +298,26 @@ func genC06(r *rng, tier string) *Case {
 			hasFail = true
 		}
 	}
+	if full && !hasFail && r.chance(0.2) {
+		// an element that fails with a Go panic (host function) instead of an error, in any closure-calling stage
+		var cands []int
+		for i := range p.Stages {
+			if hasClosure(p.Stages[i].Op) {
+				cands = append(cands, i)
+			}
+		}
+		if len(cands) > 0 {
+			s := pick(r, cands...)
+			p.Stages[s].Boom = true
+			host.Booms = make([]Match, max(nIds, len(costs)))
+			if r.chance(0.5) {
+				host.Booms[s] = Match{Kind: "mod", A: pick(r, 7, 13, 50, 97), B: r.intn(7)}
+			} else {
+				host.Booms[s] = Match{Kind: "ge", A: r.rangeInt(0, 3*p.N+5)}
+			}
+			hasFail = true
+		}
+	}
 	if full && !hasFail && r.chance(0.12) {
 		// language-level type errors (not host errors) on many elements: several workers fail at once
 		var cands []int
@@ -626,7 +646,16 @@ func genC05(r *rng, tier string) *Case {
 	}
 	prelude := ""
 	if fault == "runaway-slots" {
-		prelude = "func rs(y) rs(y+1)+1; "
+		// runaway recursion that grows the value stack, through every way a closure can be called
+		prelude = pick(r, "func rs(y) rs(y+1)+1; ", "func rs(y) rs(y+1)+1; ",
+			"func rs(y) rs.invoke([y+1])+1; ",
+			"let rm={f:(s,y)->s.f(s,y+1)+1}; func rs(y) rm.f(rm,y); ",
+			"func rs(y) (try rs(y+1) catch throw(\"again\"))+1; ",
+			"func rs(y) (if y>=0 then rs else 0)(y+1)+1; ",
+			"func rs(y) [rs][0](y+1)+1; ",
+			"func rs(y) {g:rs}.g(y+1)+1; ",
+			"func rs(y) (z->rs(z+1))(y)+1; ",
+			"func rs(y) [y+1].reduce((p,q)->p)+rs(y+1); ")
 	}
 	if fault == "runaway-fresh" {
 		prelude = "func rf(y) [y].map(z->rf(z+1)).first(); "
